@@ -131,6 +131,17 @@ static Reg r_inv("ginvlengths", [](const Args& a) {
   double s, m, M1, M2, S; G.GenInverse(lat1, lon1, lat2, lon2, Geodesic::ALL, s, m, m, m, M1, M2, S); emit(hx(m) + " " + hx(M1) + " " + hx(M2) + " " + hx(S));
   inverse_props<Geodesic, GeodesicLine>("series", G, acc_series(f), tolS(f, ea, 180), ea, f, lat1, lon1, lat2, lon2);
   inverse_props<GeodesicExact, GeodesicLineExact>("exact", E, acc_exact(f), tolSx(f, ea, 180), ea, f, lat1, lon1, lat2, lon2);
+  // a segment exactly over a pole (longitudes exactly 180 degrees apart, not antipodal): the azimuths are exactly 0 / 180 and the
+  // documented tie rule (east-going) fixes the sign of S12 = -/+ (a quarter of the ellipsoid area) + small terms; the two solvers must
+  // give the same value outright (not only modulo half the ellipsoid area, which hides a flipped sign) - gross tolerance
+  if (!std::isnan(acc_series(f)) && !std::isnan(acc_exact(f)) && std::fabs(Math::AngDiff(lon1, lon2)) == 180 && std::fabs(lat1 + lat2) > 1 && std::fabs(lat1) < 90 && std::fabs(lat2) < 90) {
+    double s12, t, Sg, Sx; G.GenInverse(lat1, lon1, lat2, lon2, Geodesic::AREA, s12, t, t, t, t, t, Sg); E.GenInverse(lat1, lon1, lat2, lon2, GeodesicExact::AREA, s12, t, t, t, t, t, Sx);
+    if (!(std::fabs(Sg - Sx) <= 1e-8 * G.EllipsoidArea())) bad("polar-segment-S12", "S12 of a segment exactly over a pole: series " + std::to_string(Sg) + " m^2, exact " + std::to_string(Sx) + " m^2");
+    // and reversing the segment negates it (both solvers)
+    double Sgr, Sxr; G.GenInverse(lat2, lon2, lat1, lon1, Geodesic::AREA, s12, t, t, t, t, t, Sgr); E.GenInverse(lat2, lon2, lat1, lon1, GeodesicExact::AREA, s12, t, t, t, t, t, Sxr);
+    if (!(std::fabs(std::remainder(Sg + Sgr, G.EllipsoidArea())) <= 1e-8 * G.EllipsoidArea()) || !(std::fabs(std::remainder(Sx + Sxr, G.EllipsoidArea())) <= 1e-8 * G.EllipsoidArea()))
+      bad("polar-segment-S12", "S12 of a segment exactly over a pole and of its reverse do not cancel modulo the ellipsoid area");
+  }
   // closed triangle: the S12 of the sides sum to the same area for both solvers (mod the ellipsoid area)
   if (!std::isnan(acc_series(f)) && !std::isnan(acc_exact(f))) {
     double lat3 = std::fmod(lat1 + lat2 + 40, 80), lon3 = lon1 + 70;
@@ -176,6 +187,7 @@ void gv::generate(const std::string& tier, uint64_t seed) {
     if (std::fabs(f) > 0.02 && f != 0.5 && f != -1.0) continue;   // the inverse-interface relations keep to the flattenings they are documented for
     double lat2 = r.irange(0, 6) ? r.range(-89, 89) : r.pick(std::vector<double>{0.0, -lat1, lat1, 0.0}), lon2 = r.irange(0, 6) ? r.range(-180, 180) : lon1 + r.pick(std::vector<double>{0.0, 1e-6, 10, 90, 170, 179.5});
     if (i % 9 == 0) { lat1 = 0; lat2 = 0; }   // equatorial segments
+    if (i % 11 == 0) { double sg = r.coin() ? 1 : -1; lat1 = sg * r.range(5, 89); lat2 = sg * r.range(5, 89); lon1 = double(r.irange(-180, 180)); lon2 = lon1 + 180; }   // exactly over a pole
     run("ginvlengths", {hx(a), hx(f), hx(lat1), hx(lon1), hx(lat2), hx(lon2)});
     stratum(lat1 == 0 && lat2 == 0 ? "lengths-inverse-equatorial" : "lengths-inverse");
     if (i % 4 == 2) gtool::tool_inverse_case(r, a, f, lat1, lon1, lat2, lon2);   // GeodSolve -i -f on the same pair
